@@ -5,6 +5,7 @@ RMS in an image.
 """
 
 import warnings
+from copy import copy
 
 import astropy.units as u
 import numpy as np
@@ -261,6 +262,9 @@ class Background2D:
 
         # we perform sigma clipping as a separate step to avoid
         # calling it twice for the background and background RMS
+        # work on copies so that the input estimator objects are unchanged
+        bkg_estimator = copy(bkg_estimator)
+        bkgrms_estimator = copy(bkgrms_estimator)
         bkg_estimator.sigma_clip = None
         bkgrms_estimator.sigma_clip = None
         self.bkg_estimator = bkg_estimator
